@@ -55,7 +55,8 @@ def exc_sig(e):
 # ---------------------------------------------------------------------------------------------
 
 BASES = ["1d_int", "1d_float", "1d_gapped", "1d_adaptive", "2d", "2d_adaptive", "2d_gap_axis1", "3d", "collection",
-         "1d_adaptive_empty", "2d_adaptive_empty", "2d_int_nokeep", "1d_int_nokeep", "collection_adaptive"]
+         "1d_adaptive_empty", "2d_adaptive_empty", "2d_int_nokeep", "1d_int_nokeep", "collection_adaptive", "collection_adaptive_copy",
+         "1d_adaptive_shared_binning"]
 
 
 def make_base(name):
@@ -94,6 +95,13 @@ def make_base(name):
         from physt.histogram1d import Histogram1D
 
         return Histogram1D(StaticBinning(np.array([0.0, 1.0, 2.0, 4.0])), frequencies=np.array([2, 0, 1]), keep_missed=False)
+    if name == "collection_adaptive_copy":
+        return make_base("collection_adaptive").copy()
+    if name == "1d_adaptive_shared_binning":
+        # two histograms built from one adaptive binning object, kept together so that both are inspected
+        a = h1(np.array([0.5, 1.5]), "fixed_width", bin_width=1.0, adaptive=True, name="a")
+        b = h1(np.array([0.5]), a.binning, name="b")
+        return Pair(a, b)
     if name == "collection_adaptive":
         # members over one adaptive binning: values outside the present bins make it grow
         from physt.binnings import FixedWidthBinning
@@ -110,11 +118,26 @@ def make_base(name):
     raise ValueError(name)
 
 
+class Pair:
+    """Two histograms that were built from the same binning object; operations go to the first one."""
+
+    def __init__(self, a, b):
+        self.a, self.b = a, b
+
+    def __getattr__(self, name):
+        return getattr(self.a, name)
+
+    def __deepcopy__(self, memo):
+        return Pair(copy.deepcopy(self.a, memo), copy.deepcopy(self.b, memo))
+
+
 def is_col(o):
     return type(o).__name__ == "HistogramCollection"
 
 
 def members(o):
+    if isinstance(o, Pair):
+        return [o.a, o.b]
     return list(o.histograms) if is_col(o) else [o]
 
 
@@ -150,6 +173,8 @@ def valid_ops(o):
 
 def apply_valid(o, name, ref=None):
     """ref: object whose bins define the fill values (so that a faulted and an un-faulted copy get the same arguments)."""
+    if isinstance(o, Pair):
+        return apply_valid(o.a, name, ref.a if isinstance(ref, Pair) else ref)
     if is_col(o):
         from physt import h1
 
@@ -247,6 +272,8 @@ def larger_hist(o):
 
 def faults(o):
     """list of (name, function, must_raise)."""
+    if isinstance(o, Pair):
+        return faults(o.a)
     if is_col(o):
         from physt import h1
         from physt.types import HistogramCollection
@@ -404,7 +431,8 @@ def invariants(o):
             pr.append("negative content")
         if pr:
             probs.append((k, pr))
-    if is_col(o):
+    if is_col(o) and not o.binning.is_adaptive():
+        # (members over an adaptive binning grow separately: each has to be well-formed, they need not stay equal)
         for k, m in enumerate(o.histograms):
             if not (m.binning == o.binning):
                 probs.append((k, ["member binning differs from the collection's"]))
